@@ -20,6 +20,7 @@ DEMOS = {
     "C12": ("asn1rs-model/tests/seeded_demo.rs", [("cargo test --offline -p asn1rs-model --test seeded_demo", "fail")]),
     "C14": ("asn1rs-model/tests/seeded_demo.rs", [("cargo test --offline -p asn1rs-model --features protobuf --test seeded_demo", "fail")]),
     "C17": ("tests/seeded_demo.rs", [("cargo test --offline --features protobuf --test seeded_demo", "fail")]),
+    "C04-agent2": ("tests/seeded_demo.rs", [("cargo test --offline --features protobuf --test seeded_demo", "fail")]),
     "C19": ("tests/seeded_demo.rs", [("cargo test --offline --test seeded_demo", "pass"), ("cargo test --offline --features descriptive-deserialize-errors --test seeded_demo", "fail")]),
 }
 
@@ -70,7 +71,7 @@ def main():
                 json.dump(meta, open(meta_path, "w"), indent=1)
                 continue
             demo_src = next((os.path.join(d, f) for f in os.listdir(d) if f.endswith(".rs")), None)
-            dest, cmds = DEMOS.get(prop, DEMOS["default"])
+            dest, cmds = DEMOS.get(name, DEMOS.get(prop, DEMOS["default"]))
             confirmed = {}
             if os.environ.get("DEMO", "1") != "0" and demo_src:
                 os.makedirs(os.path.dirname(os.path.join(REPO, dest)), exist_ok=True)
@@ -103,6 +104,9 @@ def main():
                 rc_c, out_c = sh(f"./check {p} quick", cwd=ROOT)
                 sigs = [l for l in out_c.splitlines() if l.startswith("violation:") or l.lstrip().startswith("further:")]
                 checks[p] = dict(exit=rc_c, detected=(rc_c == 1 and "VIOLATION property=" in out_c), signatures=[s[:260] for s in sigs[:4]], last_line=out_c.strip().splitlines()[-1][:200] if out_c.strip() else "")
+            merged = dict(meta.get("confirmed_by_me", {}))
+            merged.update(confirmed)
+            confirmed = merged
             meta.update(applies_on=dict(commit=head, ok=True), confirmed_by_me=confirmed, checks=checks, what_i_ran=["tools/run_seeded.py " + name], wall_s=round(time.time() - t0))
             print(f"{name}: suite {confirmed.get('repo_suite_with_change')}; demo ok without={confirmed.get('demo_without_change_passes')} with-as-expected={confirmed.get('demo_with_change_as_expected')}; detected " + str({p: c['detected'] for p, c in checks.items()}), flush=True)
         finally:
